@@ -2,12 +2,12 @@
    refutation of one of them as first stated; and the satisfiability of the hypotheses of the
    three-round catch-up theorem. *)
 From Coq Require Import ZArith List Bool Lia.
-From EC Require Import Lib.Outcome Lib.U64 Lib.ListW Model.Msgs Model.Replica Model.ReplicaRun Model.Protocol
+From EC Require Import Lib.Outcome Lib.U64 Lib.ListW Model.Msgs Model.Replica Model.ReplicaRun Model.Protocol Proofs.QCProofs
   Model.ProtocolSync Proofs.ProtocolRefinesExec Proofs.ProtocolRefinesExample
   Proofs.ProtocolLive Proofs.ProtocolLiveInv Proofs.ProtocolLiveExample Proofs.ProtocolLiveCatch
   Proofs.ProtocolLiveNoStop Proofs.ProtocolLiveCommitStep Proofs.ProtocolLiveCommitLock Proofs.ProtocolLiveCommit
   Proofs.ProtocolLiveTimeoutStep Proofs.ProtocolLiveTimeoutLock Proofs.ProtocolLiveTimeout
-  Proofs.ProtocolLiveTidy Proofs.ProtocolLiveLockstep Proofs.ProtocolLiveAlign.
+  Proofs.ProtocolLiveTidy Proofs.ProtocolLiveLockstep Proofs.ProtocolLiveAlign Proofs.ProtocolLiveAvail.
 Import ListNotations.
 Open Scope Z_scope.
 
@@ -416,6 +416,83 @@ Proof.
   repeat split; auto. rewrite Hh. unfold height. exact D.
 Qed.
 
+(* the timeout twin when some honest nodes have already timed out in view V (phases Prepare and
+   Timeout mixed): every honest node is in view V and has not voted in it; no verifying proposal
+   for V is on the network; the honest validators with a timeout vote for view V (or later) on
+   the network do not, together with the Byzantine ones, weigh a quorum (so no timeout
+   certificate for V exists yet).  Then every honest node enters view V+1 in the second round,
+   all in the same round, with the same conclusions about the proposal for V+1 as above.
+   (That no honest commit vote for view V is on the network and that the honest timeout votes
+   on the network verify follows in reachable states: ProtocolLiveAvail, preach_VP and
+   preach_SOK.) *)
+Definition unvoted (P : params) (s : gstate) (V n : Z) : Prop :=
+  forall k, honestb P k = true ->
+    up s k /\ hview s k = V /\ r_phase (n_live (g_node s k)) <> PCommit /\ height s k = n.
+
+Definition timed_out_light (P : params) (s : gstate) (V : Z) : Prop :=
+  weight (cweights (p_C P)) (timed_out_bits P (g_soup s) V) < quorum (p_C P).
+
+Definition C06_view_times_out_mixed : Prop :=
+  forall P pay fetch, params_ok P -> env_ok P pay -> forall s V n, preach P s -> headroom P s 4 ->
+  0 < V -> unvoted P s V n -> no_proposal P s V -> timed_out_light P s V ->
+  forall k0, honestb P k0 = true ->      (* some validator is honest *)
+  let s2 := sync_rounds P pay fetch 2 s in
+  let L' := cleader (pcfg P 0) (V + 1) in
+  (forall k, honestb P k = true ->
+     up s2 k /\ hview s2 k = V + 1 /\ r_phase (n_live (g_node s2 k)) = Prepare /\ height s k <= height s2 k) /\
+  (honestb P L' = true ->
+     exists tq p, vnum (tqview tq) = V /\
+       justification_verify (p_g P) (p_e P) (p_C P) (JTimeout tq) = Ok tt /\
+       ProtocolRefinesStep.kt (honestb P) (g_soup s2) tq /\
+       proposal_payload P pay (JTimeout tq) = Some p /\
+       In {| m_key := L'; m_sig_ok := true; m_msg := MProposal p (JTimeout tq) |} (g_soup s2) /\
+       (forall m p' j' mv', In m (g_soup s2) -> m_msg m = MProposal p' j' -> m_key m = L' -> m_sig_ok m = true ->
+          justification_view (E := unit) true j' = Ok mv' -> vnum mv' = V + 1 ->
+          justification_verify (p_g P) (p_e P) (p_C P) j' = Ok tt -> p' = p /\ j' = JTimeout tq)) /\
+  (honestb P L' = false -> no_proposal P s2 (V + 1)).
+
+Lemma sg_eta (m : sgmsg) : m_sig_ok m = true -> m = {| m_key := m_key m; m_sig_ok := true; m_msg := m_msg m |}.
+Proof. destruct m as [a b c]. cbn. intros ->. reflexivity. Qed.
+
+Theorem view_times_out_mixed_holds : C06_view_times_out_mixed.
+Proof.
+  intros P pay fetch HP He s V n Hr (Hd & Hs) HV Hw Hnp Hlight k0 Hk0. cbv zeta.
+  assert (Hnc : forall h c, honestb P h = true -> In {| m_key := h; m_sig_ok := true; m_msg := MCommit c |} (g_soup s) ->
+            vnum (cview c) <> V).
+  { intros h c Hh Hin EV. destruct (preach_VP P s Hr _ c Hin eq_refl Hh eq_refl) as (m & p & j & Hinm & Em & Ejv & Ever).
+    exact (Hnp m p j (cview c) Hinm Em Ejv EV Ever). }
+  assert (Htv : forall h t, honestb P h = true -> In {| m_key := h; m_sig_ok := true; m_msg := MTimeout t |} (g_soup s) ->
+            vnum (tview t) = V -> timeout_verify (p_g P) (p_e P) (p_C P) t = Ok tt).
+  { intros h t Hh Hin _. exact (preach_SOK P s Hr _ Hin eq_refl Hh). }
+  assert (HdV : p_first P + V + 4 < U64).
+  { destruct (Hw k0 Hk0) as (Hu & Hv & _). specialize (Hd k0 Hk0).
+    rewrite (up_dview P HP s k0 Hr Hk0 Hu), Hv in Hd. exact Hd. }
+  assert (Hf : 0 <= p_first P) by apply He.
+  assert (Hdv : forall k, honestb P k = true -> dview s k = V).
+  { intros k Hk. destruct (Hw k Hk) as (Hu & Hv & _). rewrite (up_dview P HP s k Hr Hk Hu). exact Hv. }
+  assert (HGC : forall m c, In m (g_soup s) -> m_sig_ok m = true -> honestb P (m_key m) = true -> m_msg m = MCommit c ->
+            vnum (cview c) < V).
+  { intros m c Hin Hsg Hh Em. rewrite (sg_eta m Hsg), Em in Hin.
+    assert (HB : forall k, honestb P k = true -> dview s k < V + 1 \/ (dview s k = V + 1 /\ dphase s k = Prepare))
+      by (intros k Hk; left; rewrite (Hdv k Hk); lia).
+    pose proof (no_commit_msg_at P HP s (m_key m) c (V + 1) Hr HB Hh Hin) as Hlt.
+    pose proof (Hnc _ c Hh Hin). lia. }
+  assert (HGT : forall m t0, In m (g_soup s) -> m_sig_ok m = true -> honestb P (m_key m) = true -> m_msg m = MTimeout t0 ->
+            V <= vnum (tview t0) -> vnum (tview t0) = V /\ timeout_verify (p_g P) (p_e P) (p_C P) t0 = Ok tt).
+  { intros m t0 Hin Hsg Hh Em HVt. rewrite (sg_eta m Hsg), Em in Hin.
+    assert (HB : forall k, honestb P k = true -> dview s k < V + 1 \/ (dview s k = V + 1 /\ dphase s k <> PTimeout))
+      by (intros k Hk; left; rewrite (Hdv k Hk); lia).
+    pose proof (no_timeout_msg_at P HP s (m_key m) t0 (V + 1) Hr HB Hh Hin) as Hlt.
+    assert (E : vnum (tview t0) = V) by lia. split; [exact E|]. exact (Htv _ t0 Hh Hin E). }
+  destruct (timeout_mixed_post P HP pay fetch He V n HV s Hr (U64 - 3) ltac:(lia) ltac:(lia) ltac:(lia)
+              (fun m Hm => ltac:(specialize (Hs m Hm); lia))
+              (fun k1 Hk1 => ltac:(destruct (Hw k1 Hk1) as (A & B & C & D); unfold height in D; repeat split; auto; lia))
+              Hnp HGC HGT (light_no_tqc P HP (g_soup s) V Hlight)) as (_ & _ & H3 & H4 & H5).
+  split; [|split; [exact H4|exact H5]].
+  intros k Hk. destruct (H3 k Hk) as (A & B & C & D). destruct (Hw k Hk) as (_ & _ & _ & Hh).
+  repeat split; auto. rewrite Hh. unfold height. exact D.
+Qed.
+
 (* (e) from a lockstep state: if one of the leaders of views V .. V+nbyz is honest, block n is
    stored by every honest node within 2*(nbyz+1) rounds.  The lockstep state (ProtocolLiveLockstep):
    every honest node waits in view V with the blocks below n stored; nothing above block n-1 is
@@ -635,6 +712,67 @@ Proof.
   - exists 1%nat. split; [lia|]. vm_compute. reflexivity.
 Qed.
 
+(* the cached-payload hypothesis of the re-proposal commit theorem follows, in reachable states,
+   from the absence of a good commit certificate for a block number >= n (ProtocolLiveAvail): the
+   timeout certificate that forces the re-proposal has an honest reporter of a vote for (n, h);
+   that node persisted the vote; since then some honest node has kept the payload, because the
+   proposal cache is only pruned below a held commit certificate *)
+Definition uncertified (P : params) (s : gstate) (n : Z) : Prop :=
+  forall q, ProtocolRefinesStep.gq (pcfg P 0) (honestb P) (g_soup s) q -> hnum (cprop (qmsg q)) < n.
+
+Theorem reproposal_payload_kept P s V n h : params_ok P -> preach P s ->
+  reproposal_on_network P s V n h -> uncertified P s n ->
+  exists k0, honestb P k0 = true /\ In (n, h) (d_proposals (n_dur (g_node s k0))) /\
+    (n_alive (g_node s k0) = true -> cache_has (r_cache (n_live (g_node s k0))) n h = true).
+Proof.
+  intros HP Hr (j & mv & Hjv & Hmv & Hjver & Himp & Hin & _) Hunc.
+  destruct (ProtocolRefinesInv.preach_inv P HP s Hr) as [a G].
+  pose proof (ProtocolRefinesInv.gi_soup _ _ _ G _ Hin) as Hkm. cbn [m_msg ProtocolRefinesStep.kmsg] in Hkm.
+  destruct j as [q|tq].
+  - cbn [get_implied_block] in Himp. destruct (num_next true (hnum (cprop (qmsg q)))); cbn [bind] in Himp; discriminate.
+  - cbn [ProtocolRefinesStep.kj] in Hkm. apply justification_verify_iff in Hjver.
+    destruct (implied_reporter P HP s tq n h Hr Hjver Hkm Himp) as (k1 & t1 & c1 & Hk1 & Hsent & Ehv & En & Eh).
+    destruct (ProtocolRefinesInv.gi_timeout _ _ _ G k1 t1 Hk1 Hsent) as (d1 & Hd1 & _ & _ & Hhv & _).
+    destruct (preach_PA P HP n h s Hr) as [_ HPA].
+    destruct (HPA k1 d1 Hk1 Hd1 ltac:(exists c1; rewrite Hhv; auto)) as [(k0 & Hk0 & H1 & H2)|(q & Hq & Hn)].
+    + exists k0. auto.
+    + specialize (Hunc q Hq). lia.
+Qed.
+
+(* the invariant itself, spelled out: a persisted high vote of an honest node for block (n, h)
+   keeps the payload available among the honest nodes until a block number >= n is certified *)
+Theorem payload_available : forall P, params_ok P -> forall n h s, preach P s ->
+  forall k d c, honestb P k = true -> In (k, d) (g_plog s) -> d_high_vote d = Some c ->
+  hnum (cprop c) = n -> hpay (cprop c) = h ->
+  (exists k', honestb P k' = true /\ In (n, h) (d_proposals (n_dur (g_node s k'))) /\
+     (n_alive (g_node s k') = true -> cache_has (r_cache (n_live (g_node s k'))) n h = true)) \/
+  (exists q, ProtocolRefinesStep.gq (pcfg P 0) (honestb P) (g_soup s) q /\ n <= hnum (cprop (qmsg q))).
+Proof.
+  intros P HP n h s Hr k d c Hk Hin Hc En Eh. destruct (preach_PA P HP n h s Hr) as [_ HPA].
+  destruct (HPA k d Hk Hin ltac:(exists c; auto)) as [(k' & Hk' & H1 & H2)|Hc']; [left; exists k'; auto|right; exact Hc'].
+Qed.
+
+(* the weight form of "no certificate at or above n yet" *)
+Theorem light_uncertified : forall P, params_ok P -> forall s n,
+  weight (cweights (p_C P)) (voted_bits P (g_soup s) n) < quorum (p_C P) -> uncertified P s n.
+Proof. intros P HP s n Hl. exact (light_no_cqc P HP (g_soup s) n Hl). Qed.
+
+Definition C06_view_recommits_avail : Prop :=
+  forall P pay fetch, params_ok P -> env_ok P pay -> forall s V n h, preach P s -> headroom P s 4 ->
+  0 < V -> waiting P s V n -> reproposal_on_network P s V n h -> uncertified P s n ->
+  fetch_ok_at P fetch (sync_point P pay (sync_round P pay fetch s)) ->
+  forall k, honestb P k = true ->
+    up (sync_rounds P pay fetch 2 s) k /\ hview (sync_rounds P pay fetch 2 s) k = V + 1 /\
+    height s k < height (sync_rounds P pay fetch 2 s) k.
+
+Theorem view_recommits_avail_holds : C06_view_recommits_avail.
+Proof.
+  intros P pay fetch HP He s V n h Hr Hh HV Hw Hrp Hunc Hfo.
+  destruct (reproposal_payload_kept P s V n h HP Hr Hrp Hunc) as (k0 & Hk0 & _ & Hc).
+  apply (view_recommits_holds P pay fetch HP He s V n h Hr Hh HV Hw Hrp); [|exact Hfo].
+  exists k0. split; [exact Hk0|]. apply Hc. apply (Hw k0 Hk0).
+Qed.
+
 (* a re-proposal scenario: six validators (validator 2 Byzantine).  After three rounds view 2's
    honest leader has proposed block 0; validators 1, 3, 4 vote, everybody times out; the next
    round assembles the timeout certificate, whose three reporters of the vote force view 3's
@@ -693,6 +831,7 @@ Definition recommit_chk (s : gstate) : bool :=
                     (height s k =? 0)) [1; 3; 4; 5; 6] &&
   forallb (fun m => msg_view (m_msg m) + 4 <? U64) (g_soup s) &&
   rponb ex_P6 s 3 0 100 &&
+  (weight (cweights (p_C ex_P6)) (voted_bits ex_P6 (g_soup s) 0) <? quorum (p_C ex_P6)) &&
   cache_has (r_cache (n_live (g_node s 1))) 0 100 &&
   negb (cache_has (r_cache (n_live (g_node s 5))) 0 100) &&
   fetch_ok_atb ex_P6 (find_cert ex_P6) (sync_point ex_P6 ex_pay (sync_round ex_P6 ex_pay (find_cert ex_P6) s)).
@@ -717,7 +856,7 @@ Proof.
 Qed.
 
 Lemma ex_recommit_hyps : exists s, preach ex_P6 s /\ headroom ex_P6 s 4 /\ waiting ex_P6 s 3 0 /\
-  reproposal_on_network ex_P6 s 3 0 100 /\
+  reproposal_on_network ex_P6 s 3 0 100 /\ uncertified ex_P6 s 0 /\
   (exists k0, honestb ex_P6 k0 = true /\ cache_has (r_cache (n_live (g_node s k0))) 0 100 = true) /\
   (exists k1, honestb ex_P6 k1 = true /\ cache_has (r_cache (n_live (g_node s k1))) 0 100 = false) /\
   fetch_ok_at ex_P6 (find_cert ex_P6) (sync_point ex_P6 ex_pay (sync_round ex_P6 ex_pay (find_cert ex_P6) s)).
@@ -726,6 +865,7 @@ Proof.
   apply andb_true_iff in Hc. destruct Hc as [Hc C6].
   apply andb_true_iff in Hc. destruct Hc as [Hc C5].
   apply andb_true_iff in Hc. destruct Hc as [Hc C4].
+  apply andb_true_iff in Hc. destruct Hc as [Hc C3'].
   apply andb_true_iff in Hc. destruct Hc as [Hc C3].
   apply andb_true_iff in Hc. destruct Hc as [C1 C2].
   assert (Hk : forall k, honestb ex_P6 k = true ->
@@ -736,13 +876,85 @@ Proof.
     apply andb_true_iff in Hb. destruct Hb as [Hb B3]. apply andb_true_iff in Hb. destruct Hb as [B1 B2].
     split; [apply Z.ltb_lt; exact B1|]. split; [exact B2|]. split; [apply Z.eqb_eq; exact B3|].
     split; [destruct (r_phase (n_live (g_node s k))); try discriminate; reflexivity|apply Z.eqb_eq; exact B5]. }
-  exists s. split; [exact Hr|]. split; [|split; [|split; [|split; [|split]]]].
+  exists s. split; [exact Hr|]. split; [|split; [|split; [|split; [|split; [|split]]]]].
   - split; [intros k Hk0; apply (Hk k Hk0)|]. intros m Hin. apply Z.ltb_lt. exact (Forall_forallb _ _ C2 m Hin).
   - intros k Hk0. destruct (Hk k Hk0) as (_ & A & B & C & D). auto.
   - apply rponb_spec. exact C3.
+  - unfold uncertified. apply (light_no_cqc ex_P6 ex_P6_ok (g_soup s) 0). apply Z.ltb_lt. exact C3'.
   - exists 1. split; [reflexivity|exact C4].
   - exists 5. split; [reflexivity|]. apply negb_true_iff. exact C5.
   - apply fetch_ok_atb_spec. exact C6.
+Qed.
+
+(* a mixed-phase scenario: after the first round of the six-validator committee (view 1, silent
+   Byzantine leader) the view timers of validators 1 and 3 fire; validators 4, 5, 6 still wait *)
+Definition no_vote_atb (P : params) (s : gstate) (V : Z) : bool :=
+  forallb (fun m => negb (m_sig_ok m && honestb P (m_key m) &&
+                          match m_msg m with MCommit c => vnum (cview c) =? V | _ => false end)) (g_soup s).
+Lemma no_vote_atb_spec P s V : no_vote_atb P s V = true ->
+  forall h c, honestb P h = true -> In {| m_key := h; m_sig_ok := true; m_msg := MCommit c |} (g_soup s) ->
+    vnum (cview c) <> V.
+Proof.
+  intros Hb h c Hh Hin E. unfold no_vote_atb in Hb. rewrite forallb_forall in Hb. specialize (Hb _ Hin).
+  cbn [m_sig_ok m_key m_msg] in Hb. rewrite Hh in Hb. apply Z.eqb_eq in E. rewrite E in Hb. discriminate.
+Qed.
+Definition timeouts_verifyb (P : params) (s : gstate) (V : Z) : bool :=
+  forallb (fun m => match m_msg m with
+                    | MTimeout t => negb (m_sig_ok m && honestb P (m_key m) && (vnum (tview t) =? V)) ||
+                                    is_ok (timeout_verify (p_g P) (p_e P) (p_C P) t)
+                    | _ => true
+                    end) (g_soup s).
+Lemma timeouts_verifyb_spec P s V : timeouts_verifyb P s V = true ->
+  forall h t, honestb P h = true -> In {| m_key := h; m_sig_ok := true; m_msg := MTimeout t |} (g_soup s) ->
+    vnum (tview t) = V -> timeout_verify (p_g P) (p_e P) (p_C P) t = Ok tt.
+Proof.
+  intros Hb h t Hh Hin E. unfold timeouts_verifyb in Hb. rewrite forallb_forall in Hb. specialize (Hb _ Hin).
+  cbn [m_sig_ok m_key m_msg] in Hb. rewrite Hh in Hb. apply Z.eqb_eq in E. rewrite E in Hb. cbn [andb negb orb] in Hb.
+  destruct (timeout_verify (p_g P) (p_e P) (p_C P) t) as [[]| |]; try discriminate. reflexivity.
+Qed.
+
+Definition ex_ops_mixed : list xop := [XTimer 1; XTimer 3].
+
+Definition mixed_chk (s : gstate) : bool :=
+  forallb (fun k => (p_first ex_P6 + dview s k + 4 <? U64) && n_alive (g_node s k) && (hview s k =? 1) &&
+                    match r_phase (n_live (g_node s k)) with PCommit => false | _ => true end &&
+                    (height s k =? 0)) [1; 3; 4; 5; 6] &&
+  forallb (fun m => msg_view (m_msg m) + 4 <? U64) (g_soup s) &&
+  match filter is_prop (g_soup s) with [] => true | _ => false end &&
+  (weight (cweights (p_C ex_P6)) (timed_out_bits ex_P6 (g_soup s) 1) <? quorum (p_C ex_P6)) &&
+  no_vote_atb ex_P6 s 1 && timeouts_verifyb ex_P6 s 1 &&
+  match r_phase (n_live (g_node s 1)), r_phase (n_live (g_node s 4)) with PTimeout, Prepare => true | _, _ => false end.
+
+Lemma ex_mixed_obs : option_map mixed_chk (xrun ex_P6 ex_s6 ex_ops_mixed) = Some true.
+Proof. vm_compute. reflexivity. Qed.
+
+Lemma ex_mixed_hyps : exists s, preach ex_P6 s /\ headroom ex_P6 s 4 /\ unvoted ex_P6 s 1 0 /\
+  no_proposal ex_P6 s 1 /\ timed_out_light ex_P6 s 1 /\
+  r_phase (n_live (g_node s 1)) = PTimeout /\ r_phase (n_live (g_node s 4)) = Prepare.
+Proof.
+  destruct (xrun_some_reach_from ex_P6 _ _ mixed_chk true (proj1 ex_view_times_out_hyps) ex_mixed_obs) as (s & Hr & Hc).
+  unfold mixed_chk in Hc.
+  apply andb_true_iff in Hc. destruct Hc as [Hc C7].
+  apply andb_true_iff in Hc. destruct Hc as [Hc C6].
+  apply andb_true_iff in Hc. destruct Hc as [Hc C5].
+  apply andb_true_iff in Hc. destruct Hc as [Hc C4].
+  apply andb_true_iff in Hc. destruct Hc as [Hc C3].
+  apply andb_true_iff in Hc. destruct Hc as [C1 C2].
+  assert (Hk : forall k, honestb ex_P6 k = true ->
+            p_first ex_P6 + dview s k + 4 < U64 /\ up s k /\ hview s k = 1 /\
+            r_phase (n_live (g_node s k)) <> PCommit /\ height s k = 0).
+  { intros k Hk. apply ex_P6_hon in Hk. pose proof (Forall_forallb _ _ C1 k Hk) as Hb. cbv beta in Hb.
+    apply andb_true_iff in Hb. destruct Hb as [Hb B5]. apply andb_true_iff in Hb. destruct Hb as [Hb B4].
+    apply andb_true_iff in Hb. destruct Hb as [Hb B3]. apply andb_true_iff in Hb. destruct Hb as [B1 B2].
+    split; [apply Z.ltb_lt; exact B1|]. split; [exact B2|]. split; [apply Z.eqb_eq; exact B3|].
+    split; [intros E; rewrite E in B4; discriminate|apply Z.eqb_eq; exact B5]. }
+  exists s. split; [exact Hr|]. split; [|split; [|split; [|split]]].
+  - split; [intros k Hk0; apply (Hk k Hk0)|]. intros m Hin. apply Z.ltb_lt. exact (Forall_forallb _ _ C2 m Hin).
+  - intros k Hk0. destruct (Hk k Hk0) as (_ & A & B & C & D). auto.
+  - apply no_proposal_by_filter. destruct (filter is_prop (g_soup s)); [reflexivity|discriminate].
+  - apply Z.ltb_lt. exact C4.
+  - destruct (r_phase (n_live (g_node s 1))); try discriminate.
+    destruct (r_phase (n_live (g_node s 4))); try discriminate. split; reflexivity.
 Qed.
 
 (* ================================================================== *)
